@@ -64,7 +64,11 @@ type socketInitCaller struct{}
 
 func (caller socketInitCaller) Call(s *slip.Scope, args slip.List, depth int) slip.Object {
 	if 0 < len(args) {
-		args = args[0].(slip.List)
+		list, ok := args[0].(slip.List)
+		if !ok {
+			slip.TypePanic(s, depth, "initargs", args[0], "list")
+		}
+		args = list
 	}
 	if val, has := slip.GetArgsKeyValue(args, slip.Symbol(":socket")); has {
 		socketSetSocketCaller{}.Call(s, slip.List{val}, 0)
